@@ -286,6 +286,22 @@ func RoundTrip(t *rapid.T, st *verifkit.Stats, codecs []Codec) {
 	c := pickCodec(t, codecs)
 	v := c.Gen(t)
 	b := CheckRoundTrip(t, c, v)
+	// A decoded value stays equal to what was encoded: decoding a second
+	// message of the same type must not change a value decoded before (the
+	// node keeps decoded messages in its histories).
+	w := c.Gen(t)
+	if bw, ow := safeMarshal(w); ow.panicked == nil && ow.err == nil {
+		d1 := c.New()
+		if o1 := safeUnmarshal(d1, b); o1.panicked == nil && o1.err == nil {
+			want1 := Render(d1)
+			d2 := c.New()
+			_ = safeUnmarshal(d2, bw)
+			if got1 := Render(d1); got1 != want1 {
+				t.Fatalf("[finding-key=%s] %s: decoding a second message changed a previously decoded value\nbefore: %s\nafter:  %s\nsecond:  %s",
+					c.key(), c.Name, want1, got1, Render(w))
+			}
+		}
+	}
 	fields, _ := scan(b)
 	desc := fmt.Sprintf("%s %s", c.Name, Render(v))
 	st.Case(len(fields) >= 2, desc, "type:"+c.Name, fmt.Sprintf("fields:%d", min(len(fields), 6)), sizeLabel(len(b)))
